@@ -313,6 +313,25 @@ fn adversarial(family: usize, len: usize, kind: u8) -> (Vec<u8>, u8) {
             while b.len() + 8 < len { b.extend_from_slice(b"x\ty\t"); }
             b.extend_from_slice(b"z\n");
         }
+        18 | 19 => {
+            // long target / reason made of short multi-byte UTF-8 sequences, separated by ASCII
+            // bytes (18) or back to back (19): validation work per non-ASCII run must not grow
+            // with what follows it
+            b.clear();
+            b.extend_from_slice(if kind == K_REQ { &b"GET /"[..] } else { &b"HTTP/1.1 200 "[..] });
+            while b.len() + 16 < len {
+                if family == 18 { b.push(b'a'); }
+                b.extend_from_slice(&[0xC3, 0xA9]);
+            }
+        }
+        21 => {
+            // header values alternating ASCII and obs-text bytes, several headers
+            while b.len() + 600 < len {
+                b.extend_from_slice(b"n: ");
+                for _ in 0..256 { b.extend_from_slice(&[b'v', 0xE9]); }
+                b.extend_from_slice(b"\r\n");
+            }
+        }
         14 => {
             // folded value whose continuation lines are mostly trailing whitespace
             b.extend_from_slice(b"a: x\r\n");
@@ -338,7 +357,7 @@ fn cmd_work(args: &[String]) {
     let arena = Arena::new((2 << 20) + 8192);
     let mut n = 0;
     for &len in &sizes {
-        for fam in 0..18 {
+        for fam in (0..20).chain([21usize]) {
             for kind in [K_REQ, K_RESP] {
                 let (data, all) = adversarial(fam, len, kind);
                 for cfg in [0u8, all] {
